@@ -237,6 +237,7 @@ def check(ctx, rep):
     rep.rule("R04a", "copy loop: 'rb' open in a with; each chunk written once unchanged; loop ends only on an empty read", floor=1)
     rep.rule("R04b", "Gopher+ length: transforming handlers leave size unset; generated menus use the unknown-length marker", floor=5)
     rep.rule("R04c", "HTTP HEAD: no body-producing call reachable; header writes independent of the method", floor=1)
+    rep.rule("R04e", "WAP text conversion splits the document at LF only (a binary readline()/split(b'\\n')), so lines map one to one", floor=1)
     rep.rule("R04d", "advertised MIME type: entry type (tables/config/constants) through the protocol's own adjust function", floor=4)
     copy_loop_obligations(ctx, rep, "R04a")
     length_obligations(ctx, rep, "R04b")
@@ -305,6 +306,42 @@ def check(ctx, rep):
                 problems.append("a GET request never sends a body")
             rep.add("R04c", f"{h.qualname}: HEAD = GET headers, no body", not problems, ctx.where(h), "; ".join(problems),
                     key=f"R04c|{h.qualname}|" + ";".join(p.split(":")[0] for p in problems))
+
+    # ------------------------------------------------------------------ R04e
+    wap = ctx.cls("protocols.wap.WAPProtocol")
+    hw = prog.resolve_method(wap, "handlerwrite") if wap else None
+    if hw is None:
+        rep.fail("R04e", "WAPProtocol.handlerwrite", detail="WAP text conversion not found")
+    else:
+        problems = []
+        n_split = 0
+        for n in ast.walk(hw.node):
+            if isinstance(n, ast.Call) and isinstance(n.func, ast.Attribute):
+                a = n.func.attr
+                if a in ("splitlines",):
+                    n_split += 1
+                    problems.append(f"`{norm(n)[:50]}` also breaks lines at CR, VT, FF, FS/GS/RS, NEL, U+2028/9 and drops them: one document line becomes several WML lines")
+                elif a in ("split", "rsplit", "partition") and n.args and isinstance(n.args[0], ast.Constant) and n.args[0].value not in ("\n", b"\n"):
+                    if "line" in norm(n.func.value) or "text" in norm(n.func.value) or "fakefile" in norm(n.func.value):
+                        problems.append(f"`{norm(n)[:50]}` splits the document at something other than LF")
+                elif a in ("split",) and not n.args and ("text" in norm(n.func.value) or "getvalue" in norm(n.func.value)):
+                    problems.append(f"`{norm(n)[:50]}` splits at arbitrary whitespace")
+                elif a in ("readline", "readlines"):
+                    n_split += 1
+                    # must read from a *binary* buffer (text wrappers translate newlines)
+                    recv = n.func.value
+                    src = recv
+                    if isinstance(recv, ast.Name):
+                        for d in ast.walk(hw.node):
+                            if isinstance(d, ast.Assign) and any(isinstance(t, ast.Name) and t.id == recv.id for t in d.targets):
+                                src = d.value
+                    if not (isinstance(src, ast.Call) and (dotted(src.func) or "").endswith("BytesIO")):
+                        problems.append(f"lines are read from `{norm(src)[:40]}`, not from a binary BytesIO buffer (newline translation would merge/split lines)")
+            if isinstance(n, ast.For) and ("fakefile" in norm(n.iter)) and not isinstance(n.iter, ast.Call):
+                n_split += 1
+        if n_split == 0:
+            problems.append("no LF-based line iteration found in the text conversion")
+        rep.add("R04e", f"{hw.qualname}: lines split at LF only", not problems, ctx.where(hw), "; ".join(sorted(set(problems))), key="R04e|handlerwrite")
 
     # ------------------------------------------------------------------ R04d
     pb = ctx.cls("protocols.base.BaseGopherProtocol")
